@@ -120,10 +120,10 @@ func genGuards() {
 	bitmap := []guardSite{
 		{Name: "bitmap_IsBitmapPresenceBit", Sig: []string{"f", "n"}, File: "field/bitmap.go", Recv: "Bitmap", Func: "IsBitmapPresenceBit",
 			Params: []string{"dae:Bool", "n", "blockLen"}, Map: ids(bm, "n")},
-		{Name: "bitmap_IsSet", Sig: []string{"f", "n"}, File: "field/bitmap.go", Recv: "Bitmap", Func: "IsSet",
+		{Name: "bitmap_IsSet", Arith: true, Sig: []string{"f", "n"}, File: "field/bitmap.go", Recv: "Bitmap", Func: "IsSet",
 			Params: []string{"n", "dataLen", "bitIsOn:Bool"}, Map: ids(map[string]string{"len(f.data)": "dataLen",
 				"f.data[(n-1)/8]&(1<<(uint(7-(n-1))%8))!=0": "bitIsOn"}, "n")},
-		{Name: "bitmap_Set", Sig: []string{"f", "n"}, File: "field/bitmap.go", Recv: "Bitmap", Func: "Set",
+		{Name: "bitmap_Set", Arith: true, Sig: []string{"f", "n"}, File: "field/bitmap.go", Recv: "Bitmap", Func: "Set",
 			Params: []string{"dae:Bool", "n", "dataLen", "blockLen", "i"}, Map: ids(map[string]string{"f.spec.DisableAutoExpand": "dae", "len(f.data)": "dataLen", "f.bitmapLength": "blockLen"}, "n", "i")},
 		{Name: "message_unpack", Sig: []string{"m", "src"}, File: "message.go", Recv: "Message", Func: "unpack",
 			Params: []string{"i", "bitmapLen", "presence:Bool", "isSet:Bool", "found:Bool"},
